@@ -263,6 +263,47 @@ func c19Tables(p *core.Program, r *core.Report) {
 			}
 			return true
 		})
+		if start < 0 {
+			// the index expression of the weekday table, evaluated for the first day: every local holds
+			// the value it is first given (seq 0, the first year/month/day of the loops)
+			var idxExpr ast.Expr
+			ast.Inspect(fi.Decl.Body, func(m ast.Node) bool {
+				if ix, ok := m.(*ast.IndexExpr); ok && idxExpr == nil {
+					if id, ok := ast.Unparen(ix.X).(*ast.Ident); ok && id.Name == wdName {
+						if o := finfo.ObjectOf(id); o != nil && o.Pkg() != nil && o.Parent() == o.Pkg().Scope() {
+							idxExpr = ix.Index
+						}
+					}
+				}
+				return true
+			})
+			if idxExpr != nil {
+				ce := &constEvaluator{p: p}
+				fr := &cframe{info: finfo, env: map[types.Object]*cval{}}
+				ast.Inspect(fi.Decl.Body, func(m ast.Node) bool {
+					if m == nil || m.Pos() >= idxExpr.Pos() {
+						return m == nil || m.Pos() < idxExpr.Pos()
+					}
+					if as, ok := m.(*ast.AssignStmt); ok && as.Tok == token.DEFINE && len(as.Lhs) == len(as.Rhs) {
+						for i, l := range as.Lhs {
+							if id, ok := l.(*ast.Ident); ok {
+								if v, ok := ce.expr(fr, as.Rhs[i]); ok && v != nil {
+									if o := finfo.ObjectOf(id); o != nil {
+										if _, had := fr.env[o]; !had {
+											fr.env[o] = v
+										}
+									}
+								}
+							}
+						}
+					}
+					return true
+				})
+				if v, ok := ce.expr(fr, idxExpr); ok && v != nil && v.k == 'i' {
+					start = v.n
+				}
+			}
+		}
 		r.Check(start >= 0 && int(start) < len(wd) && wd[start] == "Sat" && len(wd) == 7, "C19.tables", "util/dateutil.open weekday start", p.Pos(fi.Decl.Pos()), "2000-01-01 is a Saturday", fmt.Sprintf("weekday enumeration starts at index %d of %v, which is not Saturday", start, wd))
 		// the weekday index advances by one and wraps after the last name: `if i == N-1 { i = 0 } else { i++ }`
 		// or `i = (i + 1) % N` with N the number of weekday names
@@ -369,6 +410,10 @@ func c19Tables(p *core.Program, r *core.Report) {
 			switch v := m.(type) {
 			case *ast.IndexExpr:
 				if types.ExprString(v.X) == "mdayLen" {
+					// a constant month other than February has the same length every year
+					if k, ok := constIntOf(fi.Pkg.TypesInfo, v.Index); ok && k != 1 {
+						return true
+					}
 					uses = true
 				}
 			case *ast.CallExpr:
@@ -860,6 +905,17 @@ func c19FormatParse(p *core.Program, r *core.Report) {
 						} else {
 							w = -2
 						}
+					} else if wi := fixedWidthParam(p, calleeFunc(info, call), 0); fn == ".ToInt" && wi >= 0 && wi < len(call.Args) {
+						// a reader of exactly n bytes under another name (a cursor type's fixedInt(n)): the
+						// parameter that sizes the byte buffer it reads into is the field width
+						if v, ok := tryInt(call.Args[wi]); ok {
+							w = v
+						} else {
+							w = -2
+						}
+						if cf := p.FuncOf(calleeFunc(info, call)); cf != nil {
+							_ = cf
+						}
 					} else if ps, body := callee(call); body != nil && len(ps) == len(call.Args) {
 						// w.number(v, width) wrapping the formatter: the width it passes on, with its
 						// parameters standing for the arguments
@@ -1087,6 +1143,53 @@ func c19FormatParse(p *core.Program, r *core.Report) {
 }
 
 // isParamIdent: e is (a conversion of) one of the function's parameters.
+// fixedWidthParam: the index of the parameter of fn that is the number of bytes fn reads — it sizes
+// a make([]byte, n) in fn, or is handed on to such a parameter of a function fn calls. -1 if none.
+func fixedWidthParam(p *core.Program, fn *types.Func, depth int) int {
+	if fn == nil || depth > 3 {
+		return -1
+	}
+	cf := p.FuncOf(fn)
+	if cf == nil || cf.Decl.Body == nil {
+		return -1
+	}
+	info := cf.Pkg.TypesInfo
+	var params []types.Object
+	for _, f := range cf.Decl.Type.Params.List {
+		for _, n := range f.Names {
+			params = append(params, info.Defs[n])
+		}
+	}
+	idx := -1
+	ast.Inspect(cf.Decl.Body, func(n ast.Node) bool {
+		call, ok := n.(*ast.CallExpr)
+		if !ok || idx >= 0 {
+			return true
+		}
+		paramOf := func(e ast.Expr) int {
+			id, ok := ast.Unparen(e).(*ast.Ident)
+			if !ok {
+				return -1
+			}
+			for i, po := range params {
+				if po != nil && info.ObjectOf(id) == po {
+					return i
+				}
+			}
+			return -1
+		}
+		if id, ok := call.Fun.(*ast.Ident); ok && id.Name == "make" && len(call.Args) >= 2 && isByteSlice(info.TypeOf(call.Args[0])) {
+			idx = paramOf(call.Args[1])
+			return true
+		}
+		if ci := fixedWidthParam(p, calleeFunc(info, call), depth+1); ci >= 0 && ci < len(call.Args) {
+			idx = paramOf(call.Args[ci])
+		}
+		return true
+	})
+	return idx
+}
+
 func isParamIdent(info *types.Info, fi *core.FuncInfo, e ast.Expr) bool {
 	id, ok := ast.Unparen(stripConvs(info, e)).(*ast.Ident)
 	if !ok || fi.Decl.Type.Params == nil {
